@@ -120,6 +120,15 @@ def commute_outcomes(ctx: Ctx, new_cls: ClassInfo, existing: ClassInfo) -> tuple
         if not (isinstance(v, ast.Call) and (dotted(v.func) or "").split(".")[-1] == "UnaryCommutator"):
             raise AnalysisError(f"{f.key}: returns `{src(p.value)[:60]}`, not a UnaryCommutator construction")
         a_first, a_second, a_done = _commutator_args(v)
+        # locals stand for what they are bound to on this path
+        def _res(e):
+            if isinstance(e, ast.Name) and e.id not in ("self",):
+                b = resolve_name(p, e.id)
+                if isinstance(b, ast.expr):
+                    return b
+            return e
+
+        a_first, a_second = _res(a_first), _res(a_second)
         a_first = _pick_ifexp(ev, st, a_first)
         a_second = _pick_ifexp(ev, st, a_second)
         if a_first is None or (isinstance(a_first, ast.Constant) and a_first.value is None):
@@ -438,7 +447,8 @@ def r03_1_apply_protocol(ctx: Ctx) -> None:
                 if recv != f"{a}.engine":
                     problem = problem or f"append_unary is called on `{recv}` for relation `{a}` (must be that relation's own engine)"
             rv = p.value
-            if appends and not (isinstance(rv, ast.Name) and isinstance(resolve_name(p, rv.id), ast.Call) and call_attr(resolve_name(p, rv.id)) == "append_unary"):
+            rvb = resolve_name(p, rv.id) if isinstance(rv, ast.Name) else rv
+            if appends and not (isinstance(rvb, ast.Call) and call_attr(rvb) == "append_unary"):
                 problem = problem or "the appended relation is not what apply() returns"
             if is_done and not appends:
                 b = resolve_name(p, rv.id) if isinstance(rv, ast.Name) else rv
